@@ -540,6 +540,10 @@ class PathEngine:
                 vv = scalar(v)
                 if vv is None:
                     vv = coll(v)
+                if vv is None and isinstance(v, ast.Name):
+                    k3, p3 = self.prog.lookup_name(v.id, None, m)
+                    if k3 == "func":
+                        vv = ("global", p3.qual)  # a dispatch table of module-level functions
                 if kk is None or vv is None or kk[0] not in ("const", "enum"):
                     return None
                 pairs.append((kk, vv))
@@ -1066,6 +1070,12 @@ class PathEngine:
         recv = None
         if isinstance(f, ast.Attribute):
             recv = self.sym(f.value, env, store, cfg)
+        if isinstance(f, ast.Name) and f.id in env and all(t.kind in ("unknown", "callback") for t in targets):
+            fv = env[f.id]
+            if isinstance(fv, tuple) and len(fv) == 2 and fv[0] == "global" and fv[1] in self.prog.funcs:
+                from .model import Target
+
+                targets = [Target("repo", func=self.prog.funcs[fv[1]], via="function value")]  # `handler = TABLE.get(k, default); handler(...)`
         root = getattr(self, "_root_fi", None)
         if len(targets) > 1 and isinstance(f, ast.Attribute) and root is not None and root.cls is not None and root.is_method and not root.is_staticmethod and all(t.kind == "repo" and t.func is not None and t.func.cls is not None for t in targets):
             # a method called on the object the analysed method itself runs on (it travelled through an `Any`-typed
@@ -1194,6 +1204,9 @@ class PathEngine:
                         env3[g.generators[0].target.id] = el
                         parts.append(self.sym(g.elt, env3, store, cfg))
                     expanded = parts[0] if len(parts) == 1 else ("bool", "or" if fname == "any" else "and", tuple(parts))
+        if isinstance(f, ast.Attribute) and f.attr == "get" and 1 <= len(args) <= 2 and not kwargs and isinstance(recv, tuple) and recv and recv[0] == "dict" and args[0][0] in ("const", "enum") and all(k[0] in ("const", "enum") for k, _v in recv[1]) and all(t.kind in ("lib", "unknown") for t in targets):
+            hit = [v for k, v in recv[1] if k == args[0]]
+            pure, fname, expanded = True, ".get", (hit[0] if hit else (args[1] if len(args) == 2 else ("const", None)))
         if isinstance(f, ast.Attribute) and f.attr == "_asdict" and not call.args and not call.keywords and all(t.kind in ("lib", "unknown") for t in targets):
             # NamedTuple._asdict() of a parameter object: the (shallow) dict of its fields
             rc = None
